@@ -8,10 +8,10 @@ LINK = {
 """,
  "Links::new": {"ret": "r", "spec": r"""    ensures r@ == Map::<Link, usize>::empty(),
 """},
- "Links::insert": {"spec": r"""    requires cnt(old(self)@, other) < usize::MAX,
+ "Links::insert": {"params": ["other"], "spec": r"""    requires cnt(old(self)@, other) < usize::MAX,
     ensures final(self)@ == old(self)@.insert(other, (cnt(old(self)@, other) + 1) as usize),
 """, "body_start": "    proof { axiom_key_models(); }"},
- "Links::remove": {"spec": r"""    ensures
+ "Links::remove": {"params": ["other", "strong"], "spec": r"""    ensures
         cnt(old(self)@, other) > strong ==> final(self)@ == old(self)@.insert(other, (cnt(old(self)@, other) - strong) as usize),
         cnt(old(self)@, other) <= strong ==> final(self)@ == old(self)@.remove(other),
 """, "body_start": "    proof { axiom_key_models(); }"},
@@ -29,9 +29,9 @@ LINK = {
             forall|i: int| 0 <= i < r.remaining().len() ==> self@.contains_key(*(#[trigger] r.remaining()[i]).0) && self@[*r.remaining()[i].0] == *r.remaining()[i].1,
             forall|k: Link| self@.contains_key(k) ==> exists|i: int| 0 <= i < r.remaining().len() && *(#[trigger] r.remaining()[i]).0 == k,
 """, "body_start": "    proof { axiom_key_models(); }"},
- "Link::forward": {"ret": "r", "spec": "    ensures r == fl(ptr),\n"},
- "Link::backward": {"ret": "r", "spec": "    ensures r == bl(ptr),\n"},
- "Link::loopback": {"ret": "r", "spec": "    ensures r == ll(ptr),\n"},
+ "Link::forward": {"params": ["ptr"], "ret": "r", "spec": "    ensures r == fl(ptr),\n"},
+ "Link::backward": {"params": ["ptr"], "ret": "r", "spec": "    ensures r == bl(ptr),\n"},
+ "Link::loopback": {"params": ["ptr"], "ret": "r", "spec": "    ensures r == ll(ptr),\n"},
  "Link::kind": {"ret": "r", "spec": "    ensures r == self.kind,\n"},
  "Link::as_forward": {"ret": "r", "spec": "    ensures r == fl(self.ptr),\n"},
  "PartialEq::__spec_impl": r"""impl vstd::std_specs::cmp::PartialEqSpecImpl for Link {
@@ -44,6 +44,10 @@ CYCLE = {
  "__prelude": "pub struct RcH { pub ptr: Ptr }",
  "cycle_refs": {
   "ret": "r",
+  "params": ["this"],
+  "locals": [("cycle_owned_refs", r"let mut (\w+) = HashMap::default\(\);"), ("discovered", r"let mut (\w+) = vec!\["), ("visited", r"let mut (\w+) = HashSet::default\(\);"),
+             ("node", r"while let Some\((\w+)\) = "), ("links", r"let (\w+) = unsafe \{"), ("link", r"for \(&(\w+), &\w+\) in "), ("strong", r"for \(&\w+, &(\w+)\) in "),
+             ("count", r"\.and_modify\(\|(\w+)\|")],
   "sig_rewrites": [(r"\(this: Link\)", "(this: Link, heap: &Heap)")],
   "spec": r"""    requires
         this.kind == Kind::Forward, heap.has(this.ptr), heap_closed(heap), sums_fit(heap),
@@ -266,6 +270,8 @@ CYCLE = {
  },
  "orphaned_cycle": {
   "ret": "r",
+  "params": ["this"],
+  "locals": [("cycle", r"let (\w+) = cycle_refs\("), ("has_external_owners", r"let (\w+) = \w+\s*\n\s*\.iter\(\)"), ("item", r"\.any\(\|\((\w+), &\w+\)\|"), ("cycle_owned_refs", r"\.any\(\|\(\w+, &(\w+)\)\|")],
   "sig_rewrites": [(r"\(this: &Self\)", "(this: &RcH, heap: &Heap)")],
   "spec": r"""    requires heap.has(this.ptr), heap_closed(heap), sums_fit(heap),
     ensures
